@@ -1,4 +1,6 @@
 import Poly.Proofs.KVScan
+import Poly.Proofs.KVLive
+import Poly.Proofs.KVFail
 /-!
 # C10 — Layered state views agree with their backing store
 
@@ -200,6 +202,105 @@ theorem cache_scan_visible_live (c : CacheDB) (o : Overlay) (hc : c.mem.WF) (hm 
     (key : Key) :
     Sorted (c.scan o key) ∧ ∀ k v, (k, v) ∈ c.scan o key ↔ key <+: k ∧ v = c.get o k ∧ v ≠ [] :=
   ⟨cache_scan_sorted c o hc.sorted hm.sorted hs key, fun k v => cache_scan_mem c o hc.sorted hm.sorted hs key k v⟩
+
+/-! ### Iterators that stay open while the buffer is written
+
+`MemDB.NewIterator` is documented as safe to use concurrently with modification, without snapshot guarantees, and
+the OverlayDB / CacheDB iterators inherit that for their buffer side, while their store side is a goleveldb
+snapshot taken at `NewIterator`.  What the code does then: -/
+
+/-- `Next` of a positioned memdb iterator over whatever the buffer holds *now* moves to the first entry whose key
+is greater than the key it stood on — if that entry is below the limit — and reads that entry's current value; an
+exhausted forward iterator stays exhausted whatever is written later. (Keys written at or behind the position are
+never seen; the value cached for the current position is the one read when the iterator moved onto it.) -/
+theorem live_iterator_next (it : Iter) (m' : Entries) (hr : it.released = false) :
+    (∀ e, it.cur = some e →
+      (it.next m').1.cur = (match succ e.1 m' with
+        | some x => if belowLimit (limitOf it.slice) x then some x else none
+        | none => none) ∧
+      (∀ x, (it.next m').1.cur = some x → ltB e.1 x.1 = true ∧ x ∈ m')) ∧
+    (it.cur = none → it.forward = true → it.next m' = (it, false)) := by
+  refine ⟨fun e hc => ?_, fun hc hf => next_live_none it m' hc hf hr⟩
+  have h := (next_live it m' e hc hr).1
+  refine ⟨h, fun x hx => ?_⟩
+  rw [h] at hx
+  cases hs : succ e.1 m' with
+  | none => rw [hs] at hx; cases hx
+  | some y =>
+    rw [hs] at hx
+    by_cases hb : belowLimit (limitOf it.slice) y = true
+    · simp only [hb, if_true, Option.some.injEq] at hx; subst hx; exact succ_gt hs
+    · simp [hb] at hx
+
+/-- **Live join, one step.** For a JoinIter whose buffer side reads the live buffer and whose other side is any
+cursor over a fixed sorted stream (the store snapshot): if the state satisfies the between-calls invariant with the
+last yielded key `b`, then whatever the buffer holds now, a `Next` that returns true yields a key strictly greater
+than `b` with a non-empty value, and the invariant holds again with the new key. `First` establishes it. -/
+theorem live_join_step {β : Type} (B : Ops β) (RB : β → Entries → Prop) (hB : IsCursor B RB) (m' : Entries) (N : Nat)
+    (b : Key) (j : Join Iter β) (h : LiveInv RB (some b) j) (ht : (Join.Next (iterOps m') B N j).2 = true) :
+    ltB b (Join.Next (iterOps m') B N j).1.key = true ∧
+    LiveInv RB (some (Join.Next (iterOps m') B N j).1.key) (Join.Next (iterOps m') B N j).1 ∧
+    (Join.Next (iterOps m') B N j).1.value ≠ [] := live_Next hB m' N h ht
+
+theorem live_join_first {β : Type} (B : Ops β) (RB : β → Entries → Prop) (hB : IsCursor B RB) (m : Entries) (N : Nat)
+    (s : Option Range) (b₀ : β) (lb : Entries) (sb : Starts B RB b₀ lb)
+    (ht : (Join.First (iterOps m) B N ({ mem := Iter.new s, back := b₀ } : Join Iter β)).2 = true) :
+    LiveInv RB (some (Join.First (iterOps m) B N ({ mem := Iter.new s, back := b₀ } : Join Iter β)).1.key)
+      (Join.First (iterOps m) B N ({ mem := Iter.new s, back := b₀ } : Join Iter β)).1 ∧
+    (Join.First (iterOps m) B N ({ mem := Iter.new s, back := b₀ } : Join Iter β)).1.value ≠ [] :=
+  live_First hB m N s b₀ lb sb ht
+
+/-- **The join never goes back.** Over any sequence of buffers seen by successive `Next` calls (arbitrary writes in
+between, of any kind), the yielded keys are strictly increasing and all above the last key yielded before. -/
+theorem live_join_monotone {β : Type} (B : Ops β) (RB : β → Entries → Prop) (hB : IsCursor B RB) (N : Nat)
+    (ms : List Entries) (b : Key) (j : Join Iter β) (h : LiveInv RB (some b) j) :
+    (∀ k ∈ liveRun B N ms j, ltB b k = true) ∧ (liveRun B N ms j).Pairwise (fun a c => ltB a c = true) :=
+  liveRun_increasing hB N ms h
+
+/-- Instance for `OverlayDB.NewIterator`: live overlay buffer over a sorted store snapshot. -/
+theorem overlay_live_iterator (snap : Entries) (hs : Sorted snap) (pfx : Key) (m₀ : Entries) (N : Nat)
+    (ht : (Join.First (iterOps m₀) (iterOps snap) N (Overlay.newIterator pfx)).2 = true) (ms : List Entries) :
+    let j := (Join.First (iterOps m₀) (iterOps snap) N (Overlay.newIterator pfx)).1
+    (j.key :: liveRun (iterOps snap) N ms j).Pairwise (fun a c => ltB a c = true) := by
+  intro j
+  have h1 := live_First (iterOps_isCursor hs) m₀ N (some (bytesPrefix pfx)) (Iter.new (some (bytesPrefix pfx)))
+    _ (iterOps_starts (some (bytesPrefix pfx)) hs) ht
+  have h2 := liveRun_increasing (iterOps_isCursor hs) N ms h1.1
+  exact List.pairwise_cons.mpr ⟨h2.1, h2.2⟩
+
+/-! ### Failing sub-iterators (a LevelDB read error, a released iterator)
+
+`first()`/`next()` check `Error()` right after moving the sub-iterators.  `Join.FirstE`/`NextE` model that, with the
+two error predicates as parameters. -/
+
+/-- Without errors the error-checking join is exactly the join the theorems above are about. -/
+theorem join_error_free_is_plain {α β : Type} (A : Ops α) (B : Ops β) (eA : α → Bool) (eB : β → Bool)
+    (hA : ∀ s, eA s = false) (hB : ∀ s, eB s = false) (n : Nat) (j : Join α β) :
+    Join.FirstE A B eA eB n j = Join.First A B n j ∧ Join.NextE A B eA eB n j = Join.Next A B n j :=
+  ⟨FirstE_noerr A B eA eB hA hB n j, NextE_noerr A B eA eB hA hB n j⟩
+
+/-- A `First`/`Next` that returns true certifies that neither sub-iterator reports an error: an entry is never
+yielded in the same call as, or after, a failure. -/
+theorem join_yield_certifies_no_error {α β : Type} (A : Ops α) (B : Ops β) (eA : α → Bool) (eB : β → Bool) (n : Nat)
+    (j : Join α β) :
+    ((Join.FirstE A B eA eB n j).2 = true → Join.err eA eB (Join.FirstE A B eA eB n j).1 = false) ∧
+    ((Join.NextE A B eA eB n j).2 = true → Join.err eA eB (Join.NextE A B eA eB n j).1 = false) :=
+  ⟨FirstE_true_noerr A B eA eB n j, NextE_true_noerr A B eA eB n j⟩
+
+/-- Errors are sticky: once a sub-iterator has failed (and keeps reporting it), every later `First` and `Next` of
+the join returns false and `Error()` stays set — a truncated scan is always distinguishable from a complete one by
+`Error()`. -/
+theorem join_error_is_sticky {α β : Type} (A : Ops α) (B : Ops β) (eA : α → Bool) (eB : β → Bool)
+    (hA : StickyErr A eA) (hB : StickyErr B eB) (n : Nat) (j : Join α β) (h : Join.err eA eB j = true) :
+    (Join.NextE A B eA eB n j).2 = false ∧ Join.err eA eB (Join.NextE A B eA eB n j).1 = true ∧
+    (Join.FirstE A B eA eB n j).2 = false ∧ Join.err eA eB (Join.FirstE A B eA eB n j).1 = true :=
+  ⟨(NextE_after_error A B eA eB hA hB n j h).1, (NextE_after_error A B eA eB hA hB n j h).2,
+   (FirstE_after_error A B eA eB hA hB n j h).1, (FirstE_after_error A B eA eB hA hB n j h).2⟩
+
+/-- The two iterator models used in the correspondence satisfy the stickiness hypothesis. -/
+theorem iterator_errors_sticky (m : Entries) :
+    StickyErr (iterOps m) (·.err) ∧ StickyErr (faultyOps (iterOps m)) Faulty.failed :=
+  ⟨iter_err_sticky m, faulty_sticky (iterOps m)⟩
 
 /-! Non-vacuity: three layers with a deleted, an overwritten and a store-only key. -/
 example :
